@@ -10,6 +10,7 @@ LEVEL = 'proof'
 # broken-tie observations (model != implementation while c2m == gcc): reported only when the whole run
 # found no concrete input on which the property itself fails
 DEFERRED = []
+NOT_WF = []   # generated declarations outside wf_ty: the generator and the theorem's quantifier must agree
 WORK = os.path.join(vlib.BUILD, 'c08')
 
 
@@ -66,8 +67,9 @@ class Tools:
             raise vlib.BuildError('model driver failed: rc=%d %s' % (rcm, em[-500:]))
         res = []
         for i, t in enumerate(decls):
-            mc, ms = [' '.join(x.split()[1:]) for x in om[i].split('|')]
-            res.append(dict(c2m=a.get(str(i)), gcc=b.get(str(i)), mc=mc, ms=ms, bss=bss.get(str(i))))
+            parts = om[i].split('|')
+            mc, ms = [' '.join(x.split()[1:]) for x in parts[:2]]
+            res.append(dict(c2m=a.get(str(i)), gcc=b.get(str(i)), mc=mc, ms=ms, bss=bss.get(str(i)), wf=parts[2].strip()))
         info = dict(c2m_rc=rc1, c2m_err=e1[-400:], gcc_rc=rc2, gcc_err=e2[-400:])
         return res, info
 
@@ -267,6 +269,9 @@ def layout_part(chk, tools, decls, label):
         fs = G.features(t)
         chk.count(G.ty_text(t), nontrivial=G.size_of(t) >= 4)
         chk.dist('layout_verdicts', v)
+        chk.dist('in_theorem_quantifier(wf_ty)', r['wf'])
+        if r['wf'] != 'wf':
+            NOT_WF.append(G.ty_text(t))
         for f in sorted(fs):
             chk.dist('decl_features', f)
         chk.dist('decl_nodes', min(60, G.size_of(t) // 10 * 10))
@@ -468,6 +473,9 @@ def run(chk):
                            'with the extracted c2mir and SysV classification models.  Passing: every small aggregate is passed and '
                            'returned by value in all four caller/callee combinations of c2m code (-ei and -eg) and a gcc-compiled shared '
                            'library, after 0..7 scalar arguments and followed by two one-register structs, with a checksum of its non-padding bits')
+        if NOT_WF:
+            chk.finding('harness:not-wf', dict(decls=NOT_WF[:5]), 'generated declarations outside the quantifier of layout_eq_sysv '
+                        '(wf_ty false): ' + NOT_WF[0][:200], no_input=True)
         if not chk.violations:
             for sig, obj, what in DEFERRED[:3]:
                 chk.finding(sig, obj, what, no_input=True)
